@@ -1,6 +1,7 @@
 package c11
 
 import (
+	"fmt"
 	"strings"
 )
 
@@ -351,8 +352,15 @@ func enumE(t tree, fullTables bool, emit func(eSpec)) {
 								for _, t2 := range t2s {
 									for b := 0; b < nb; b++ {
 										others := make([]int, len(otherIDs))
+										nonPlain := 0
 										for i, x := 0, b; i < len(others); i, x = i+1, x/3 {
 											others[i] = x % 3
+											if others[i] != 0 {
+												nonPlain++
+											}
+										}
+										if fullTables && len(others) >= 2 && nonPlain > 1 {
+											continue // 16-pair tables on the larger trees: at most one other dependency off/tagged
 										}
 										emit(eSpec{Tree: t.ID, Focus: f.dotted(), Cond: cond, Tags: tags, En: en, On: on, T1: t1, T2: t2, Others: others, OtherIDs: otherIDs})
 									}
@@ -409,4 +417,98 @@ func subsetsOf(leaves []string) [][]string {
 		out = append(out, s)
 	}
 	return out
+}
+
+// ---------- R family: one chart used several times, with conditional grandchildren ----------
+
+// repSpec is one tree of the R family: chart A depended on nAl times at the
+// same level (aliases a, b, c), A itself having nGc conditional dependencies
+// (X, Y, Z). gcAlias: A's first dependency itself goes by an alias (x2=X).
+type repSpec struct {
+	NAl, NGc int
+	GcAlias  bool
+}
+
+func (r repSpec) id() string {
+	s := fmt.Sprintf("P-%dxA-%dgc", r.NAl, r.NGc)
+	if r.GcAlias {
+		s += "-x2=X"
+	}
+	return s
+}
+
+func (r repSpec) mk() *ChartDef {
+	a := &ChartDef{Name: "A"}
+	for i, n := range []string{"X", "Y", "Z"}[:r.NGc] {
+		d := DepDef{Name: n}
+		if i == 0 && r.GcAlias {
+			d.Alias = "x2"
+		}
+		d.Condition = d.Eff() + ".enabled"
+		a.Deps = append(a.Deps, d)
+		a.Subs = append(a.Subs, leaf(n))
+	}
+	p := &ChartDef{Name: "P", Subs: []*ChartDef{a}}
+	for _, al := range []string{"a", "b", "c"}[:r.NAl] {
+		p.Deps = append(p.Deps, DepDef{Name: "A", Alias: al, Condition: al + ".enabled"})
+	}
+	return p
+}
+
+// buildR: aliasOff is a bit set (alias i switched off by the user); gc holds,
+// alias-major, the state of every (alias, grandchild): 0 on, 1 switched off
+// in user values, 2 switched off in P's values.yaml section for that alias.
+func buildR(r repSpec, aliasOff int, gc []int) *Case {
+	cs := &Case{Root: r.mk(), User: map[string]any{}}
+	richDefaults(cs.Root)
+	root := instantiate(cs.Root, nil, nil)
+	for i, al := range root.kids {
+		if aliasOff&(1<<i) != 0 {
+			setPath(cs.User, []string{al.name, "enabled"}, false)
+		}
+		for j, g := range al.kids {
+			switch gc[i*r.NGc+j] {
+			case 1:
+				setPath(cs.User, []string{al.name, g.name, "enabled"}, false)
+			case 2:
+				setPath(cs.Root.Defaults, []string{al.name, g.name, "enabled"}, false)
+			}
+		}
+	}
+	return cs
+}
+
+// enumR: every assignment of the three states to every (alias, grandchild),
+// with every alias on and with each single alias / (small trees) every set of
+// aliases switched off.
+func enumR(r repSpec, allAliasSets bool, emit func(aliasOff int, gc []int)) {
+	n := r.NAl * r.NGc
+	gc := make([]int, n)
+	var offs []int
+	for m := 0; m < 1<<r.NAl; m++ {
+		bits := 0
+		for x := m; x > 0; x >>= 1 {
+			bits += x & 1
+		}
+		if allAliasSets || bits <= 1 {
+			offs = append(offs, m)
+		}
+	}
+	for {
+		for _, off := range offs {
+			emit(off, append([]int{}, gc...))
+		}
+		i := 0
+		for i < n {
+			gc[i]++
+			if gc[i] < 3 {
+				break
+			}
+			gc[i] = 0
+			i++
+		}
+		if i == n {
+			return
+		}
+	}
 }
